@@ -152,7 +152,7 @@ func fsStartSim(r *simcore.Run) {
 		}
 		return true, ""
 	}
-	deadline := time.Now().Add(3 * time.Second)
+	deadline := time.Now().Add(10 * time.Second)
 	ok, why := matches()
 	for !ok && time.Now().Before(deadline) {
 		time.Sleep(5 * time.Millisecond)
@@ -164,7 +164,7 @@ func fsStartSim(r *simcore.Run) {
 			keys = append(keys, filepath.Base(k)+"="+v)
 		}
 		sort.Strings(keys)
-		r.Fail("no-convergence-after-faults-stopped", "file_system/"+map[bool]string{false: "change-during-start", true: "single-file-replaced"}[singleFile]+map[bool]string{true: "/symlink-swap"}[kubelet], "3s after the provider started and the last write (%v) the active rule sets still differ from the directory: %s", opsLog, why)
+		r.Fail("no-convergence-after-faults-stopped", "file_system/"+map[bool]string{false: "change-during-start", true: "single-file-replaced"}[singleFile]+map[bool]string{true: "/symlink-swap"}[kubelet], "10s after the provider started and the last write (%v) the active rule sets still differ from the directory: %s", opsLog, why)
 		return
 	}
 	r.Count("starts-converged", 1)
